@@ -136,7 +136,27 @@ impl Display for DocumentConfig {
 /// Renders a string as a double-quoted YAML scalar. JSON strings are valid YAML
 /// flow scalars, so quotes, backslashes and control characters are escaped.
 fn yaml_quoted(value: &str) -> String {
-    serde_json::to_string(value).unwrap_or_else(|_| format!("{:?}", value))
+    let quoted = serde_json::to_string(value).unwrap_or_else(|_| format!("{:?}", value));
+
+    // JSON leaves some characters as they are, which YAML does not accept in a
+    // stream (DEL, C1 controls, U+FFFE, U+FFFF) or folds as line breaks (NEL, LS, PS)
+    if !quoted.chars().any(needs_yaml_escape) {
+        return quoted;
+    }
+    quoted
+        .chars()
+        .map(|ch| {
+            if needs_yaml_escape(ch) {
+                format!("\\u{:04x}", ch as u32)
+            } else {
+                ch.to_string()
+            }
+        })
+        .collect()
+}
+
+fn needs_yaml_escape(ch: char) -> bool {
+    matches!(ch, '\u{7f}'..='\u{9f}' | '\u{2028}' | '\u{2029}' | '\u{fffe}' | '\u{ffff}')
 }
 
 /// Renders a string as plain YAML scalar if it is safe to do so in a flow mapping,
